@@ -4,6 +4,7 @@ import Q1t.Proofs.OpenQasmWF
 import Q1t.Spec.Born
 import Q1t.Proofs.SimGFAll
 import Q1t.Proofs.Conditional
+import Q1t.Proofs.OpenQasmMeasureAll
 set_option linter.unusedSimpArgs false
 set_option linter.unusedSectionVars false
 /-!
@@ -1241,11 +1242,174 @@ theorem resetStates_rel (n : Nat) (c0 : α) : ∀ (qs : List Nat) (L1 L2 : List 
       unfold gateOn
       rw [mulVec_vsmul _ _ (embed_wf n [q] _)]
 
+/-! ### `measure_all`: branch lists up to a permutation -/
+
+/-- the program's branches correspond one to one to a PERMUTATION of the circuit's branches -/
+def PermRel (P : Type) [Amp α P] (n : Nat) (l1 l2 : List (Branch α)) : Prop :=
+  ∃ l, l.Perm l2 ∧ List.Forall₂ (BrRel P n) l1 l
+
+theorem PermRel.of_forall2 {n : Nat} {l1 l2 : List (Branch α)} (h : List.Forall₂ (BrRel P n) l1 l2) :
+    PermRel P n l1 l2 := ⟨l2, List.Perm.refl _, h⟩
+
+theorem PermRel.append {n : Nat} {a1 a2 b1 b2 : List (Branch α)} (ha : PermRel P n a1 a2)
+    (hb : PermRel P n b1 b2) : PermRel P n (a1 ++ b1) (a2 ++ b2) := by
+  obtain ⟨la, hpa, hfa⟩ := ha
+  obtain ⟨lb, hpb, hfb⟩ := hb
+  exact ⟨la ++ lb, List.Perm.append hpa hpb, List.rel_append hfa hfb⟩
+
+theorem mapM_cons_some {β γ : Type} (G : β → Option γ) (x : β) (l : List β) (r : List γ)
+    (h : (x :: l).mapM G = some r) : ∃ a r', G x = some a ∧ l.mapM G = some r' ∧ r = a :: r' := by
+  rw [List.mapM_cons] at h
+  cases hx : G x with
+  | none => simp [hx] at h
+  | some a =>
+    cases hl : l.mapM G with
+    | none => simp [hx, hl] at h
+    | some r' =>
+      simp [hx, hl] at h
+      exact ⟨a, r', rfl, rfl, h.symm⟩
+
+/-- a pointwise partial map on a permuted list gives a permuted (flattened) result -/
+theorem mapM_flatten_perm {β γ : Type} (G : β → Option (List γ)) {l l2 : List β} (hp : l.Perm l2) :
+    ∀ r, l.mapM G = some r → ∃ r2, l2.mapM G = some r2 ∧ r.flatten.Perm r2.flatten := by
+  induction hp with
+  | nil => intro r h; exact ⟨r, h, List.Perm.refl _⟩
+  | cons x _ ih =>
+    intro r h
+    obtain ⟨a, r', hx, hl, rfl⟩ := mapM_cons_some G x _ r h
+    obtain ⟨r2, h2, hp2⟩ := ih r' hl
+    exact ⟨a :: r2, by simp [List.mapM_cons, hx, h2], by simpa using List.Perm.append_left a hp2⟩
+  | swap x y t =>
+    intro r h
+    obtain ⟨b, r1, hy, h1, rfl⟩ := mapM_cons_some G y _ r h
+    obtain ⟨a, rt, hx, ht, rfl⟩ := mapM_cons_some G x _ r1 h1
+    refine ⟨a :: b :: rt, by simp [List.mapM_cons, hx, hy, ht], ?_⟩
+    simp only [List.flatten_cons, ← List.append_assoc]
+    exact List.Perm.append_right _ List.perm_append_comm
+  | trans _ _ ih1 ih2 =>
+    intro r h
+    obtain ⟨r2, h2, hp2⟩ := ih1 r h
+    obtain ⟨r3, h3, hp3⟩ := ih2 r2 h2
+    exact ⟨r3, h3, hp2.trans hp3⟩
+
+/-- all register words fit 64 bits -/
+def AllLt (L : List (Branch α)) : Prop := ∀ b ∈ L, b.2 < 2 ^ 64
+
+theorem mstep_allLt (n : Nat) (p : Nat × Nat) (hp : p.2 < 64) (L : List (Branch α)) (h : AllLt L) :
+    AllLt (mstep n p L) := by
+  intro b hb
+  simp only [mstep, List.mem_flatMap, List.mem_cons, List.not_mem_nil, or_false] at hb
+  obtain ⟨b0, hb0, rfl | rfl⟩ := hb
+  · exact writeBit_lt b0.2 p.2 false (h b0 hb0) hp
+  · exact writeBit_lt b0.2 p.2 true (h b0 hb0) hp
+
+/-- the fold the semantics of `measure a -> c` performs, with `OQ2.setBit`, is the sequential measurement -/
+theorem measureFold_eq (n : Nat) : ∀ (prs : List (Nat × Nat)) (L : List (Branch α)), AllLt L →
+    (∀ p ∈ prs, p.2 < 64) →
+    prs.foldl (fun (brs : List (Branch α)) (p : Nat × Nat) =>
+      (brs.flatMap fun (b : Branch α) =>
+        [(projectQ n p.1 false b.1, setBit b.2 p.2 false), (projectQ n p.1 true b.1, setBit b.2 p.2 true)]).filter
+          fun b => nzT b.1) L = seqMeasure n prs L ∧ AllLt (seqMeasure n prs L)
+  | [], L, h, _ => ⟨rfl, h⟩
+  | p :: ps, L, h, h64 => by
+    have hp := h64 p (List.mem_cons_self ..)
+    have hstep : ((L.flatMap fun (b : Branch α) =>
+        [(projectQ n p.1 false b.1, setBit b.2 p.2 false), (projectQ n p.1 true b.1, setBit b.2 p.2 true)]).filter
+          fun b => nzT b.1) = mstep n p L := by
+      have hfil : ∀ l : List (Branch α), l.filter (fun b => nzT b.1) = l := fun l =>
+        List.filter_eq_self.2 (fun _ _ => rfl)
+      rw [hfil]
+      unfold mstep
+      refine List.flatMap_congr fun b hb => ?_
+      simp only [stepB, projectQ_eq, setBit_eq_writeBit b.2 p.2 _ (h b hb) hp]
+    simp only [List.foldl_cons, hstep, seqMeasure]
+    exact measureFold_eq n ps _ (mstep_allLt n p hp L h) fun q hq => h64 q (List.mem_cons_of_mem _ hq)
+
+theorem zipIdx_swap_qpairs (cbits : List Nat) :
+    cbits.zipIdx.map (fun x => (x.2, x.1)) = qpairs cbits.length cbits := by
+  apply List.ext_getElem (by simp [qpairs])
+  intro i h1 h2
+  simp only [List.length_map, List.length_zipIdx] at h1
+  simp [qpairs, List.getD_eq_getElem?_getD, h1]
+
+/-- running a list of lines on a list of branches, when every line acts branch by branch -/
+theorem linesRun_single (n : Nat) (rg : Regs) (nz : List α → Bool) (l : Line P) (L : List (Branch α))
+    (S : Branch α → List (Branch α)) (h : ∀ b ∈ L, Line.run (α := α) n rg nz l b = some (S b)) :
+    (L.mapM (Line.run (α := α) n rg nz l)).map List.flatten = some (L.flatMap S) := by
+  rw [mapM_congr_mem _ (fun b => some (S b)) L h, mapM_eq_map _ S L fun _ _ => rfl]
+  simp [List.flatMap_def]
+
+theorem run_measure_line (nq nc : Nat) (hq : 0 < nq) (hnc : nc ≤ 64) (i c : Nat) (hi : i < nq) (hc : c < nc)
+    (b : Branch α) (hb : b.2 < 2 ^ 64) :
+    Line.run (α := α) (P := P) nq (exportRegs nq nc) nzT (Line.measure (QRef.bit "q" i) (QRef.bit "b" c)) b =
+      some (seqMeasure nq [(i, c)] [b]) := by
+  have hnc0 : 0 < nc := by omega
+  have hc64 : c < 64 := by omega
+  obtain ⟨φ, u⟩ := b
+  simp only [Line.run, QRef.toQArg, Option.pure_def, Option.bind_eq_bind, Option.bind_some, runOp, resolveArg,
+    exportRegs_q nq nc hq, exportRegs_b nq nc hnc0, findReg, if_true, hi, hc, Option.bind_some]
+  simp only [List.length_singleton, ne_eq, not_true_eq_false, if_false, List.zip_cons_cons, List.zip_nil_right,
+    List.foldl_cons, List.foldl_nil, List.flatMap_cons, List.flatMap_nil, List.append_nil, nzT,
+    List.filter_cons_of_pos, List.filter_nil, projectQ_eq, Nat.zero_add,
+    setBit_eq_writeBit u c _ hb hc64]
+  simp [seqMeasure, mstep, stepB]
+
+/-- the lines `measure q[i] -> b[c];` for a list of pairs, on any list of branches whose words fit 64 bits -/
+theorem run_measure_lines (nq nc : Nat) (hq : 0 < nq) (hnc : nc ≤ 64) :
+    ∀ (prs : List (Nat × Nat)) (L : List (Branch α)), (∀ p ∈ prs, p.1 < nq ∧ p.2 < nc) → AllLt L →
+      linesRun (P := P) nq (exportRegs nq nc) nzT
+        (prs.map fun p => Line.measure (QRef.bit "q" p.1) (QRef.bit "b" p.2)) L = some (seqMeasure nq prs L)
+  | [], L, _, _ => rfl
+  | p :: ps, L, hp, hL => by
+    obtain ⟨h1, h2⟩ := hp p (List.mem_cons_self ..)
+    simp only [List.map_cons, linesRun]
+    have := linesRun_single (P := P) nq (exportRegs nq nc) nzT
+      (Line.measure (QRef.bit "q" p.1) (QRef.bit "b" p.2)) L (fun b => seqMeasure nq [(p.1, p.2)] [b])
+      (fun b hb => run_measure_line nq nc hq hnc p.1 p.2 h1 h2 b (hL b hb))
+    cases hm : L.mapM (Line.run (α := α) (P := P) nq (exportRegs nq nc) nzT
+        (Line.measure (QRef.bit "q" p.1) (QRef.bit "b" p.2))) with
+    | none => rw [hm] at this; cases this
+    | some r =>
+      rw [hm] at this
+      simp only [Option.map_some, Option.some.injEq] at this
+      simp only [Option.bind_some, this]
+      have e : (L.flatMap fun b => seqMeasure nq [(p.1, p.2)] [b]) = mstep nq p L := by
+        simp [seqMeasure, mstep]
+      rw [e, run_measure_lines nq nc hq hnc ps _ (fun q hq' => hp q (List.mem_cons_of_mem _ hq'))
+        (mstep_allLt nq p (by omega) L hL)]
+      rfl
+
+theorem qpairs_range (n : Nat) : qpairs n (List.range n) = (List.range n).map fun i => (i, i) := by
+  unfold qpairs
+  refine List.map_congr_left fun q hq => ?_
+  have := List.mem_range.1 hq
+  simp [List.getD_eq_getElem?_getD, this]
+
+theorem zip_self_range (n : Nat) : (List.range n).zip (List.range n) = (List.range n).map fun i => (i, i) := by
+  rw [List.zip_eq_zipWith, List.zipWith_self]
+
+/-- the line `measure q -> b;` (whole registers of equal size) on one branch -/
+theorem run_measure_regs (n : Nat) (hq : 0 < n) (hn64 : n ≤ 64) (b : Branch α) (hb : b.2 < 2 ^ 64) :
+    Line.run (α := α) (P := P) n (exportRegs n n) nzT (Line.measure (QRef.reg "q") (QRef.reg "b")) b =
+      some (seqMeasure n (qpairs n (List.range n)) [b]) := by
+  obtain ⟨φ, u⟩ := b
+  have hfold := (measureFold_eq (α := α) n (qpairs n (List.range n)) [(φ, u)]
+    (fun x hx => by simp only [List.mem_singleton] at hx; subst hx; exact hb)
+    (fun p hp => by
+      rw [qpairs_range] at hp
+      obtain ⟨i, hi, rfl⟩ := List.mem_map.1 hp
+      have := List.mem_range.1 hi
+      simp only; omega)).1
+  rw [← hfold, qpairs_range, ← zip_self_range]
+  simp only [Line.run, QRef.toQArg, Option.pure_def, Option.bind_eq_bind, Option.bind_some, runOp, resolveArg,
+    exportRegs_q n n hq, exportRegs_b n n hq, findReg, if_true, Option.map_some, Nat.zero_add, List.map_id',
+    List.length_range, ne_eq, not_true_eq_false, if_false]
+
 /-- the class of operations for which the equivalence is proved: unconditional sound gates whose leaves are
 accepted by `ok`, on valid qubits; barriers; resets of a qubit in range; Z-basis measurements with operands in range; conditional gates on a
 permutation of the whole classical register with a target the list can spell, all of whose leaves translate into a
 single statement -/
-def QOp.equivSound (tbl : List GateTpl) (ok : String → Bool) (nq nc : Nat) : QOp P → Bool
+def QOp.equivSound1 (tbl : List GateTpl) (ok : String → Bool) (nq nc : Nat) : QOp P → Bool
   | .gate g bits => g.sound tbl && g.leavesOk ok && validBits nq bits && bits.length == nbits tbl g
   | .reset q => decide (q < nq)
   | .barrier qbits => !qbits.isEmpty && qbits.all (· < nq)
@@ -1257,14 +1421,14 @@ def QOp.equivSound (tbl : List GateTpl) (ok : String → Bool) (nq nc : Nat) : Q
   | _ => false
 
 theorem op_equiv (h : LawfulAmp α P) (tbl : List GateTpl) (ok : String → Bool) (hleaf : LeavesOK' α P tbl ok)
-    (nq nc : Nat) (hq : 0 < nq) (hnc : nc ≤ 64) (op : QOp P) (hs : op.equivSound tbl ok nq nc = true) (ls : List (Line P))
+    (nq nc : Nat) (hq : 0 < nq) (hnc : nc ≤ 64) (op : QOp P) (hs : op.equivSound1 tbl ok nq nc = true) (ls : List (Line P))
     (he : exportOp tbl nq nc op = .ok ls) :
     ∃ cop, op.toCOp = some cop ∧ ∀ brs1 brs2 : List (Branch α), List.Forall₂ (BrRel P nq) brs1 brs2 →
       ∃ r1 r2, linesRun nq (exportRegs nq nc) nzT ls brs1 = some r1 ∧
         (brs2.mapM (branchesOp nq nzT cop)).map List.flatten = some r2 ∧ List.Forall₂ (BrRel P nq) r1 r2 := by
   cases op with
   | gate g bits =>
-    simp only [QOp.equivSound, Bool.and_eq_true, beq_iff_eq] at hs
+    simp only [QOp.equivSound1, Bool.and_eq_true, beq_iff_eq] at hs
     obtain ⟨⟨⟨hsound, hlv⟩, hv⟩, hl⟩ := hs
     obtain ⟨cs, hcs, rfl⟩ := Res.map_eq_ok.1 he
     obtain ⟨term, hterm, hS, apps, happs, c, hc, hrun⟩ := exportGate_sem h tbl ok hleaf nq g bits cs hsound hlv hv hl hcs
@@ -1282,7 +1446,7 @@ theorem op_equiv (h : LawfulAmp α P) (tbl : List GateTpl) (ok : String → Bool
     · exact List.Forall₂.cons ⟨rfl, gateOn_length nq term bits ψ, hw64, c0 * c, conj_unit_mul h c0 c hc0 hc, rfl⟩
         List.Forall₂.nil
   | reset q =>
-    simp only [QOp.equivSound, decide_eq_true_eq] at hs
+    simp only [QOp.equivSound1, decide_eq_true_eq] at hs
     simp only [exportOp, qbitNames_get nq q hs, Res.ok.injEq] at he
     subst he
     refine ⟨.reset q, rfl, fun brs1 brs2 hrel => ?_⟩
@@ -1312,7 +1476,7 @@ theorem op_equiv (h : LawfulAmp α P) (tbl : List GateTpl) (ok : String → Bool
     · refine List.Forall₂.cons ⟨rfl, by rw [project_length]; exact hlen, hw64, c0, hc0, rfl⟩
         (List.Forall₂.cons ⟨rfl, gateOn_length nq _ _ _, hw64, c0, hc0, rfl⟩ List.Forall₂.nil)
   | barrier qbits =>
-    simp only [QOp.equivSound, Bool.and_eq_true, Bool.not_eq_true', List.all_eq_true, decide_eq_true_eq] at hs
+    simp only [QOp.equivSound1, Bool.and_eq_true, Bool.not_eq_true', List.all_eq_true, decide_eq_true_eq] at hs
     refine ⟨.barrier qbits, rfl, fun brs1 brs2 hrel => ?_⟩
     have hline : ∃ qs : List QArg, ls = [Line.barrier (qs.map fun a => match a with
         | .reg r => QRef.reg r | .idx r i => QRef.bit r i)] ∧ True := by
@@ -1353,7 +1517,7 @@ theorem op_equiv (h : LawfulAmp α P) (tbl : List GateTpl) (ok : String → Bool
       exact mapM_singleton_flatten brs2
     exact ⟨brs1, brs2, rfl, hborn, hrel⟩
   | cond control target g bits =>
-    simp only [QOp.equivSound, Bool.and_eq_true, Bool.not_eq_true', decide_eq_true_eq, beq_iff_eq] at hs
+    simp only [QOp.equivSound1, Bool.and_eq_true, Bool.not_eq_true', decide_eq_true_eq, beq_iff_eq] at hs
     obtain ⟨⟨⟨⟨⟨⟨⟨hne, hfull⟩, htgt⟩, hsound⟩, hlv⟩, hsingle⟩, hv⟩, hl⟩ := hs
     have hlenc : control.length = nc := isFullRegister_length nc control hfull
     have hnc0 : 0 < nc := by
@@ -1430,7 +1594,7 @@ theorem op_equiv (h : LawfulAmp α P) (tbl : List GateTpl) (ok : String → Bool
     · rw [List.forall₂_map_left_iff, List.forall₂_map_right_iff]
       exact hst.imp fun a b hab => ⟨rfl, hab.1, hw64, c0, hc0, hab.2⟩
   | measure q c b =>
-    simp only [QOp.equivSound, Bool.and_eq_true, beq_iff_eq, decide_eq_true_eq] at hs
+    simp only [QOp.equivSound1, Bool.and_eq_true, beq_iff_eq, decide_eq_true_eq] at hs
     obtain ⟨⟨rfl, hq'⟩, hc'⟩ := hs
     have hc64 : c < 64 := by omega
     have hnc0 : 0 < nc := by omega
@@ -1464,9 +1628,186 @@ theorem op_equiv (h : LawfulAmp α P) (tbl : List GateTpl) (ok : String → Bool
     · exact List.Forall₂.cons ⟨rfl, by rw [project_length]; exact hlen, writeBit_lt u c false hw64 hc64, c0, hc0, rfl⟩
         (List.Forall₂.cons ⟨rfl, by rw [project_length]; exact hlen, writeBit_lt u c true hw64 hc64, c0, hc0, rfl⟩
           List.Forall₂.nil)
-  | measureAll cbits b => simp [QOp.equivSound] at hs
-  | peek q c b => simp [QOp.equivSound] at hs
-  | peekAll cbits b => simp [QOp.equivSound] at hs
+  | measureAll cbits b => simp [QOp.equivSound1] at hs
+  | peek q c b => simp [QOp.equivSound1] at hs
+  | peekAll cbits b => simp [QOp.equivSound1] at hs
+
+/-! ## `measure_all`, and every operation up to a permutation of the branches -/
+
+theorem run_measureAll (tbl : List GateTpl) (nq nc : Nat) (hq : 0 < nq) (hnc : nc ≤ 64) (cbits : List Nat)
+    (hlen : cbits.length = nq) (hlt : ∀ c ∈ cbits, c < nc) (ls : List (Line P))
+    (he : exportOp tbl nq nc (.measureAll cbits .Z) = .ok ls) (L : List (Branch α)) (hL : AllLt L) :
+    linesRun nq (exportRegs nq nc) nzT ls L = some (seqMeasure nq (qpairs nq cbits) L) := by
+  simp only [exportOp, basisLines, Res.bind_ok, List.nil_append] at he
+  split at he
+  · rename_i hid
+    simp only [Bool.and_eq_true, beq_iff_eq] at hid
+    simp only [Res.ok.injEq] at he
+    subst he
+    have hcb : cbits = List.range nc := by
+      have := isIdentityList_eq cbits hid.2
+      rw [hid.1] at this; exact this
+    have hnn : nq = nc := by rw [← hlen, hid.1]
+    subst hnn
+    subst hcb
+    have := linesRun_single (P := P) nq (exportRegs nq nq) nzT (Line.measure (QRef.reg "q") (QRef.reg "b")) L
+      (fun b => seqMeasure nq (qpairs nq (List.range nq)) [b])
+      (fun b hb => run_measure_regs nq hq hnc b (hL b hb))
+    simp only [linesRun]
+    cases hm : L.mapM (Line.run (α := α) (P := P) nq (exportRegs nq nq) nzT
+        (Line.measure (QRef.reg "q") (QRef.reg "b"))) with
+    | none => rw [hm] at this; cases this
+    | some r =>
+      rw [hm] at this
+      simp only [Option.map_some, Option.some.injEq] at this
+      simp only [Option.bind_some, this]
+      rw [← seqMeasure_flatMap]
+  · rw [mapM_eq_map _ (fun x : Nat × Nat => (Line.measure (QRef.bit "q" x.2) (QRef.bit "b" x.1) : Line P))
+        cbits.zipIdx (by
+          intro x hx
+          have hx2 : x.2 < nq := by
+            have := List.mem_zipIdx hx
+            omega
+          have hx1 : x.1 < nc := by
+            have := List.mem_zipIdx hx
+            exact hlt x.1 (by rw [this.2.2]; exact List.getElem_mem _)
+          simp [qbitNames_get nq x.2 hx2, cbitNames_get nc x.1 hx1])] at he
+    simp only [Res.ok.injEq] at he
+    subst he
+    have e : (cbits.zipIdx.map fun x : Nat × Nat => (Line.measure (QRef.bit "q" x.2) (QRef.bit "b" x.1) : Line P)) =
+        (qpairs nq cbits).map fun p => Line.measure (QRef.bit "q" p.1) (QRef.bit "b" p.2) := by
+      rw [← hlen, ← zipIdx_swap_qpairs, List.map_map]; rfl
+    rw [e]
+    refine run_measure_lines nq nc hq hnc _ L ?_ hL
+    intro p hp
+    simp only [qpairs, List.mem_map, List.mem_range] at hp
+    obtain ⟨q, hqlt, rfl⟩ := hp
+    refine ⟨hqlt, hlt _ ?_⟩
+    have : q < cbits.length := by omega
+    simp [List.getD_eq_getElem?_getD, this]
+
+theorem seqMeasure_rel (n : Nat) : ∀ (prs : List (Nat × Nat)), (∀ p ∈ prs, p.2 < 64) →
+    ∀ L1 L2 : List (Branch α), List.Forall₂ (BrRel P n) L1 L2 →
+      List.Forall₂ (BrRel P n) (seqMeasure n prs L1) (seqMeasure n prs L2)
+  | [], _, _, _, h => h
+  | p :: ps, hp, L1, L2, h => by
+    simp only [seqMeasure, List.foldl_cons]
+    refine seqMeasure_rel n ps (fun q hq => hp q (List.mem_cons_of_mem _ hq)) _ _ ?_
+    have hp64 := hp p (List.mem_cons_self ..)
+    induction h with
+    | nil => exact List.Forall₂.nil
+    | cons hab _ ih =>
+      obtain ⟨hw, hlen, hw64, c0, hc0, hφ⟩ := hab
+      simp only [mstep, List.flatMap_cons]
+      refine List.rel_append (List.Forall₂.cons ?_ (List.Forall₂.cons ?_ List.Forall₂.nil)) ih
+      · exact ⟨by simp [stepB, hw], by simp [stepB, project_length, hlen], writeBit_lt _ p.2 false hw64 hp64, c0, hc0,
+          by simp [stepB, hφ, project_vsmul]⟩
+      · exact ⟨by simp [stepB, hw], by simp [stepB, project_length, hlen], writeBit_lt _ p.2 true hw64 hp64, c0, hc0,
+          by simp [stepB, hφ, project_vsmul]⟩
+
+/-- the class of operations of `export_equiv_partial`: those of `equivSound1`, and `measure_all` in the Z basis into
+DISTINCT classical bits, one per qubit, in range -/
+def QOp.equivSound (tbl : List GateTpl) (ok : String → Bool) (nq nc : Nat) : QOp P → Bool
+  | .measureAll cbits b => b == .Z && cbits.length == nq && decide cbits.Nodup && cbits.all (· < nc)
+  | op => op.equivSound1 tbl ok nq nc
+
+theorem permRel_flatMap (n : Nat) (S B : Branch α → List (Branch α))
+    (hSB : ∀ b1 b2, BrRel P n b1 b2 → PermRel P n (S b1) (B b2)) :
+    ∀ l1 l2, List.Forall₂ (BrRel P n) l1 l2 → PermRel P n (l1.flatMap S) (l2.flatMap B)
+  | [], [], _ => ⟨[], List.Perm.refl _, List.Forall₂.nil⟩
+  | b1 :: l1, b2 :: l2, h => by
+    cases h with
+    | cons hb hl =>
+      simp only [List.flatMap_cons]
+      exact PermRel.append (hSB b1 b2 hb) (permRel_flatMap n S B hSB l1 l2 hl)
+
+theorem forall2_mem_left {β γ : Type} {R : β → γ → Prop} {l1 : List β} {l2 : List γ}
+    (h : List.Forall₂ R l1 l2) : ∀ a ∈ l1, ∃ b ∈ l2, R a b := by
+  induction h with
+  | nil => intro a ha; cases ha
+  | cons hab _ ih =>
+    intro a ha
+    rcases List.mem_cons.1 ha with rfl | ha
+    · exact ⟨_, List.mem_cons_self .., hab⟩
+    · obtain ⟨b, hb, hr⟩ := ih a ha
+      exact ⟨b, List.mem_cons_of_mem _ hb, hr⟩
+
+theorem forall2_mem_right {β γ : Type} {R : β → γ → Prop} {l1 : List β} {l2 : List γ}
+    (h : List.Forall₂ R l1 l2) : ∀ b ∈ l2, ∃ a ∈ l1, R a b := by
+  induction h with
+  | nil => intro b hb; cases hb
+  | cons hab _ ih =>
+    intro b hb
+    rcases List.mem_cons.1 hb with rfl | hb
+    · exact ⟨_, List.mem_cons_self .., hab⟩
+    · obtain ⟨a, ha, hr⟩ := ih b hb
+      exact ⟨a, List.mem_cons_of_mem _ ha, hr⟩
+
+theorem op_step (h : LawfulAmp α P) (tbl : List GateTpl) (ok : String → Bool) (hleaf : LeavesOK' α P tbl ok)
+    (nq nc : Nat) (hq : 0 < nq) (hnc : nc ≤ 64) (op : QOp P) (hs : op.equivSound tbl ok nq nc = true)
+    (ls : List (Line P)) (he : exportOp tbl nq nc op = .ok ls) :
+    ∃ cop, op.toCOp = some cop ∧ ∀ brs1 brs2 : List (Branch α), PermRel P nq brs1 brs2 →
+      ∃ r1 r2, linesRun nq (exportRegs nq nc) nzT ls brs1 = some r1 ∧
+        (brs2.mapM (branchesOp nq nzT cop)).map List.flatten = some r2 ∧ PermRel P nq r1 r2 := by
+  -- the operations whose branches correspond in order
+  have old : op.equivSound1 tbl ok nq nc = true →
+      ∃ cop, op.toCOp = some cop ∧ ∀ brs1 brs2 : List (Branch α), PermRel P nq brs1 brs2 →
+        ∃ r1 r2, linesRun nq (exportRegs nq nc) nzT ls brs1 = some r1 ∧
+          (brs2.mapM (branchesOp nq nzT cop)).map List.flatten = some r2 ∧ PermRel P nq r1 r2 := fun hs1 => by
+    obtain ⟨cop, hcop, hstep⟩ := op_equiv h tbl ok hleaf nq nc hq hnc op hs1 ls he
+    refine ⟨cop, hcop, fun brs1 brs2 hrel => ?_⟩
+    obtain ⟨l, hperm, hf⟩ := hrel
+    obtain ⟨r1, rl, hr1, hrl, h12⟩ := hstep brs1 l hf
+    cases hm : l.mapM (branchesOp nq nzT cop) with
+    | none => rw [hm] at hrl; cases hrl
+    | some rr =>
+      rw [hm] at hrl
+      simp only [Option.map_some, Option.some.injEq] at hrl
+      obtain ⟨rr2, hrr2, hp2⟩ := mapM_flatten_perm (branchesOp nq nzT cop) hperm rr hm
+      exact ⟨r1, rr2.flatten, hr1, by rw [hrr2]; rfl, rl, hrl ▸ hp2, h12⟩
+  cases op with
+  | measureAll cbits b =>
+    simp only [QOp.equivSound, Bool.and_eq_true, beq_iff_eq, decide_eq_true_eq, List.all_eq_true] at hs
+    obtain ⟨⟨⟨rfl, hlen⟩, hnd⟩, hlt⟩ := hs
+    have h64 : ∀ c ∈ cbits, c < 64 := fun c hc => by have := hlt c hc; omega
+    have hp64 : ∀ p ∈ qpairs nq cbits, p.2 < 64 := by
+      intro p hp
+      simp only [qpairs, List.mem_map, List.mem_range] at hp
+      obtain ⟨q, hqlt, rfl⟩ := hp
+      have : q < cbits.length := by omega
+      exact h64 _ (by simp [List.getD_eq_getElem?_getD, this])
+    refine ⟨.measureAll cbits .Z, rfl, fun brs1 brs2 hrel => ?_⟩
+    obtain ⟨l, hperm, hf⟩ := hrel
+    have hL1 : AllLt brs1 := by
+      intro b hb
+      obtain ⟨b2, _, hr⟩ := forall2_mem_left hf b hb
+      rw [hr.1]; exact hr.2.2.1
+    have hL2 : ∀ b ∈ brs2, b.2 < 2 ^ 64 := by
+      intro b hb
+      obtain ⟨a, _, hr⟩ := forall2_mem_right hf b (hperm.mem_iff.2 hb)
+      exact hr.2.2.1
+    have hborn : brs2.mapM (branchesOp (P := P) nq nzT (.measureAll cbits .Z)) =
+        some (brs2.map (bornList nq (qpairs nq cbits))) := by
+      rw [mapM_congr_mem _ (fun b => some (bornList nq (qpairs nq cbits) b)) brs2 (fun b hb => by
+        obtain ⟨ψ, w⟩ := b
+        exact branchesOp_measureAll nq nzT (fun _ => rfl) cbits hlen hnd h64 ψ w (hL2 _ hb))]
+      exact mapM_eq_map _ _ _ fun _ _ => rfl
+    refine ⟨seqMeasure nq (qpairs nq cbits) brs1, (brs2.map (bornList nq (qpairs nq cbits))).flatten,
+      run_measureAll tbl nq nc hq hnc cbits hlen hlt ls he brs1 hL1, by rw [hborn]; rfl, ?_⟩
+    rw [seqMeasure_flatMap, ← List.flatMap_def]
+    obtain ⟨l', hp', hf'⟩ := permRel_flatMap (P := P) nq (fun b => seqMeasure nq (qpairs nq cbits) [b])
+      (bornList nq (qpairs nq cbits))
+      (fun b1 b2 hb => ⟨seqMeasure nq (qpairs nq cbits) [b2], seq_perm_born nq _ b2,
+        seqMeasure_rel nq _ hp64 [b1] [b2] (List.Forall₂.cons hb List.Forall₂.nil)⟩) brs1 l hf
+    exact ⟨l', hp'.trans (List.Perm.flatMap_right _ hperm), hf'⟩
+  | gate g bits => exact old hs
+  | cond control target g bits => exact old hs
+  | reset q => exact old hs
+  | resetAll => exact old hs
+  | measure q c b => exact old hs
+  | peek q c b => exact old hs
+  | peekAll cbits b => exact old hs
+  | barrier bits => exact old hs
 
 /-! ## circuits -/
 
@@ -1518,9 +1859,9 @@ theorem ops_equiv (h : LawfulAmp α P) (tbl : List GateTpl) (ok : String → Boo
     ∀ (ops : List (QOp P)) (per : List (List (Line P))), ops.map (exportOp tbl nq nc) = per.map Res.ok →
       (∀ op ∈ ops, op.equivSound tbl ok nq nc = true) →
       ∃ cops, ops.mapM QOp.toCOp = some cops ∧ ∀ brs1 brs2 : List (Branch α),
-        List.Forall₂ (BrRel P nq) brs1 brs2 →
+        PermRel P nq brs1 brs2 →
         ∃ r1 r2, linesRun nq (exportRegs nq nc) nzT per.flatten brs1 = some r1 ∧
-          Spec.branches nq nzT cops brs2 = some r2 ∧ List.Forall₂ (BrRel P nq) r1 r2
+          Spec.branches nq nzT cops brs2 = some r2 ∧ PermRel P nq r1 r2
   | [], per, hp, _ => by
     cases per with
     | nil => exact ⟨[], rfl, fun brs1 brs2 hrel => ⟨brs1, brs2, rfl, rfl, hrel⟩⟩
@@ -1530,7 +1871,7 @@ theorem ops_equiv (h : LawfulAmp α P) (tbl : List GateTpl) (ok : String → Boo
     | nil => cases hp
     | cons l per =>
       simp only [List.map_cons, List.cons.injEq] at hp
-      obtain ⟨cop, hcop, hstep⟩ := op_equiv h tbl ok hleaf nq nc hq hnc op (hs op (List.mem_cons_self ..)) l hp.1
+      obtain ⟨cop, hcop, hstep⟩ := op_step h tbl ok hleaf nq nc hq hnc op (hs op (List.mem_cons_self ..)) l hp.1
       obtain ⟨cops, hcops, hrest⟩ := ops_equiv h tbl ok hleaf nq nc hq hnc ops per hp.2
         fun o ho => hs o (List.mem_cons_of_mem _ ho)
       refine ⟨cop :: cops, by simp [List.mapM_cons, hcop, hcops], fun brs1 brs2 hrel => ?_⟩
@@ -1556,14 +1897,14 @@ theorem export_equiv_of_sound (h : LawfulAmp α P) (tbl : List GateTpl) (ok : St
     (he : exportCircuit tbl c = .ok ls) :
     ∃ cops, c.ops.mapM QOp.toCOp = some cops ∧ ∃ r1 r2 : List (Branch α),
       exportedRun nzT c.nq c.nc ls = some r1 ∧
-      Spec.branches c.nq nzT cops [(zeroState c.nq, 0)] = some r2 ∧ List.Forall₂ (BrRel P c.nq) r1 r2 := by
+      Spec.branches c.nq nzT cops [(zeroState c.nq, 0)] = some r2 ∧ PermRel P c.nq r1 r2 := by
   obtain ⟨per, hper, rfl⟩ := (exportCircuit_ok_iff tbl c ls).1 he
   obtain ⟨cops, hcops, hrun⟩ := ops_equiv h tbl ok hleaf c.nq c.nc hq hnc c.ops per hper hs
   refine ⟨cops, hcops, ?_⟩
   have hinit : List.Forall₂ (BrRel P c.nq) [((zeroState c.nq : List α), 0)] [((zeroState c.nq : List α), 0)] :=
     List.Forall₂.cons ⟨rfl, zeroState_length c.nq, by norm_num, 1, by rw [h.conj_one]; ring, (vsmul_one _).symm⟩
       List.Forall₂.nil
-  obtain ⟨r1, r2, hr1, hr2, hr12⟩ := hrun _ _ hinit
+  obtain ⟨r1, r2, hr1, hr2, hr12⟩ := hrun _ _ (PermRel.of_forall2 hinit)
   refine ⟨r1, r2, ?_, hr2, hr12⟩
   unfold exportedRun
   rw [linesRun_append, linesRun_header]
